@@ -11,6 +11,7 @@ RULE = ("Hypothesis draws an agent configuration (1-8 actions, alpha in {-1} U (
         "reference model; separately a bandit environment with an initial best loss and a sequence of best-loss "
         "observations (improving / equal / worse). Non-trivial (agent) = >= 3 learns on one action and >= 1 policy call; "
         "(env) = >= 1 improvement and >= 1 non-improvement.")
+RULE = RULE.replace('(improving / equal / worse).', '(improving / equal / worse / exactly zero), the owning scheduler being re-seeded before some of them.')
 ASSUMPTIONS = ["estimate comparison tolerance 1e-12 relative (same formula, possibly different association)",
                "an improvement on a reference best loss of exactly 0 is excluded (the published formula divides by it)"]
 SHARDS = {"quick": 4, "thorough": 16}
